@@ -89,7 +89,7 @@ impl Namer {
                     }
                 }
             }
-            Expr::Assign(t, v, _) | Expr::Compound(t, _, v, _) => {
+            Expr::Assign(t, v, _) | Expr::Compound(t, _, v, _, _) => {
                 self.target(t);
                 self.expr(v);
             }
